@@ -1,4 +1,7 @@
-"""C05 - results are a pure function of parameters and rural file."""
+"""C05 - results are a pure function of parameters and rural file.
+
+Round 5 (harness/v1_util.py): size sequences - models whose derived sizes differ (padded soil slices, ground records,
+stock rows, district height) generated larger-then-smaller and smaller-then-larger in one interpreter vs fresh interpreters."""
 import ast
 import hashlib
 import os
@@ -385,6 +388,78 @@ def circumstance_purity(chk, work):
                'custom object after construction, e.g. `cop`, is re-derived by from_dict: DESIGN 3.1)', mismatches=bad, branches=br)
 
 
+def size_sequences(chk, work):
+    """(h) round 5: models whose DERIVED sizes differ, one after the other in one interpreter. A routine that keeps a
+    list it has grown for an earlier model (a mutable default argument, a module-level buffer, a memo keyed too coarsely)
+    hands the next model too many - or too few - slices / levels / rows. Every configuration is generated after a LARGER
+    and after a SMALLER one (palindromic order) and must be, bit for bit, the model the same parameters give as the first
+    and only model of a fresh interpreter; the last model (shipped parameters again) is simulated and written as well."""
+    import json
+    from concurrent.futures import ThreadPoolExecutor
+    import u1_util as U1
+    import v1_util as V
+    rng = chk.rng
+    quick = chk.tier == 'quick'
+    import s1_util as S1
+    base = S1.load_epw(U.rp(U.EPW_SGP))
+    files = V.size_rural_files(base, work)
+    window = (rng.choice([1, 4, 7, 10]), rng.randint(1, 28), 1, 300)
+    pad = ['P28', 'P8', 'P4', 'S', 'P4', 'P8', 'P28']             # padding: larger -> smaller -> larger
+    seq = ['G30'] + pad + ['G6']
+    others = [['B5', 'B1', 'B5'], ['Hhi', 'Hlo', 'Hhi'], ['B1', 'B5', 'B1'], ['Hlo', 'Hhi', 'Hlo']]
+    seq += rng.choice(others) if quick else sum(others, []) + ['G30', 'G6', 'S', 'G30']
+    seq += ['S']                                                   # simulated
+    keys = sorted(set(seq))
+    # references: each configuration as the first and only model of a fresh interpreter (started now, collected later)
+    ex = ThreadPoolExecutor(max_workers=min(10, len(keys)))
+    futs = {k: ex.submit(U1.call_child, os.path.join(work, 'sizeref_' + k), 'v1_util:child_size_run',
+                         dict(key=k, epw=files[k], outdir=os.path.join(work, 'sizeref_' + k), outname='ref.epw',
+                              simulate=(k == 'S'), window=list(window)), False, 'size') for k in keys}
+    got = []
+    keep = []
+    for i, k in enumerate(seq):
+        last = i == len(seq) - 1
+        got.append(V.size_run(k, files[k], os.path.join(work, 'sizeseq'), 'm%d.epw' % i, simulate=last, window=window))
+    refs = {k: f.result() for k, f in futs.items()}
+    ex.shutdown()
+    bad = n = 0
+    br = {}
+    for i, (k, g) in enumerate(zip(seq, got)):
+        n += 1
+        ref = refs[k]
+        rel = 'first' if i == 0 else ('after %s' % seq[i - 1])
+        br[k] = br.get(k, 0) + 1
+        if isinstance(ref, dict) and 'child_error' in ref:
+            bad += 1
+            chk.violation('impl-violation', 'purity: a fresh interpreter fails on an accepted parameter set',
+                          case={'configuration': V.SIZE_BY_KEY[k][1]}, observed=ref['child_error'][-400:], expected='a model')
+            continue
+        diff = [f for f in g if f != 'raised' and g[f] != ref.get(f)]
+        if 'raised' in g or diff:
+            bad += 1
+            if bad <= 3:
+                chk.violation('impl-violation', 'purity: a model generated after other models of other sizes differs from the same '
+                              'parameters in a fresh interpreter (%s)' % (', '.join(diff[:4]) or 'raised'),
+                              case={'configuration': V.SIZE_BY_KEY[k][1], 'parameters': V.SIZE_BY_KEY[k][3],
+                                    'ground depths of the rural file': V.SIZE_BY_KEY[k][2] or 'shipped (0.5 / 2 / 4 m)',
+                                    'window (month, day, nday, dtsim)': list(window), 'position in the sequence': i,
+                                    'models generated before it in this interpreter (in order)':
+                                        [V.SIZE_BY_KEY[x][1] for x in seq[:i]],
+                                    'how': 'harness/props/c05.py size_sequences; v1_util.size_run'},
+                              observed={f: g.get(f) for f in (diff or ['raised'])},
+                              expected={f: ref.get(f) for f in diff} or 'the model of a fresh interpreter')
+    chk.direct('size sequences: larger-then-smaller and smaller-then-larger models in one interpreter vs fresh interpreters', n, len(keys),
+               'configurations whose derived sizes differ - soil slices padded below the pavement (pavement 0.62 / 0.1 / 0.3 / '
+               '0.5 m: 28 / 8 / 4 / 0 slices; a rural file whose first ground depth is 2 m: 30; six ground depths), stock rows '
+               '(1 / 5), district height and extent (buildings 40 m, reference height 300 m, 4 km vs 4 m, 60 m, 250 m) - '
+               'generated one after the other in this interpreter in palindromic orders (each after a larger and after a smaller '
+               'one; quick: the padding family + one random other family, thorough: all), each compared with the SAME '
+               'parameters as the first and only model of a fresh interpreter: slices and depth of road and rural ground, '
+               'ground-depth indices, buildings, wall slices, levels of the vertical column, bit-exact digest of everything a '
+               'simulation starts from; the last model (shipped parameters after all the others) is also simulated and written: '
+               'hourly records and file bytes', mismatches=bad, branches=br)
+
+
 def run_full(cfg, outdir, name):
     m = U.new_model(outdir=outdir, outname=name, **cfg)
     with core.quiet():
@@ -496,5 +571,6 @@ def run(chk):
     custom_vector_purity(chk, work)
     environment_purity(chk, work)
     circumstance_purity(chk, work)
+    size_sequences(chk, work)
     chk.assumptions.append('CPython, pickle and the OS are trusted; the theorem is about the abstract world '
                            'machine, its worth is the frame check (static scan + dynamic monitor)')
